@@ -273,3 +273,17 @@ Example C11_concrete :
   from_dict_fixed gen_linear (to_dict 0 (create (Sc := unit) gen_linear tt tt Linear (1 # 10) (1 # 2) 4 true (Some 2%nat)))
     = Some (create (Sc := unit) gen_linear tt tt Linear (1 # 10) (1 # 2) 4 true (Some 2%nat)).
 Proof. vm_compute. repeat split; reflexivity. Qed.
+
+(* ---------------- the list of scale ranges (Model/ScaleLists.v) ---------------- *)
+From Verif Require ScaleLists ScaleListsP.
+(* the configuration keeps the ranges as given: the i-th stored range is the i-th listed one, repeats included ... *)
+Theorem C11_scale_list_kept : forall (l : list ScaleLists.range) (i : nat) (d : ScaleLists.range),
+  nth i (ScaleLists.keep l) d = nth i l d /\ length (ScaleLists.keep l) = length l.
+Proof. exact ScaleListsP.keep_spec. Qed.
+Print Assumptions C11_scale_list_kept.
+(* ... a sorted list without repeats (np.unique) is another list unless the ranges were given ascending and once *)
+Theorem C11_scale_list_unique_sorted_refuted :
+  (exists l i d, length (ScaleLists.unique_sorted l) = length l /\ nth i (ScaleLists.unique_sorted l) d <> nth i l d) /\
+  (exists l, (length (ScaleLists.unique_sorted l) < length l)%nat).
+Proof. exact ScaleListsP.unique_sorted_refuted. Qed.
+Print Assumptions C11_scale_list_unique_sorted_refuted.
